@@ -10,7 +10,9 @@ import (
 	"math/rand"
 	"os"
 	"path/filepath"
+	"regexp"
 	"sort"
+	"strconv"
 	"strings"
 
 	"github.com/openconfig/goyang/pkg/yang"
@@ -85,6 +87,9 @@ func owners(class string, d *Disc) []string {
 		case strings.Contains(d.Detail, "augment"):
 			return []string{"C07"}
 		case strings.Contains(d.Detail, "type"):
+			if in, _ := d.Facts["in_grouping"].(bool); in {
+				return []string{"C09", "C06"}
+			}
 			return []string{"C09"}
 		case strings.Contains(d.Detail, "group"):
 			return []string{"C06"}
@@ -158,6 +163,40 @@ func (c *cmp) bad(x *schema.X, class, f string, a ...any) {
 		facts["inside_rpc_io"] = insideIO(x)
 	}
 	c.out = append(c.out, Disc{Class: class, Detail: fmt.Sprintf(f, a...), Facts: facts})
+}
+
+var errPos = regexp.MustCompile(`^([^:\s]+):(\d+):(\d+): `)
+
+// insideGrouping tells whether the position an error names lies inside a grouping of the
+// generated text (the printer indents by nesting depth, so the enclosing statements are the
+// nearest lines above with less indentation).
+func insideGrouping(files []File, msg string) bool {
+	m := errPos.FindStringSubmatch(msg)
+	if m == nil {
+		return false
+	}
+	line, _ := strconv.Atoi(m[2])
+	for _, f := range files {
+		if f.Name != m[1] {
+			continue
+		}
+		lines := strings.Split(f.Text, "\n")
+		if line < 1 || line > len(lines) {
+			return false
+		}
+		indent := func(l string) int { return len(l) - len(strings.TrimLeft(l, " ")) }
+		ind := indent(lines[line-1])
+		for k := line - 2; k >= 0 && ind > 0; k-- {
+			if strings.TrimSpace(lines[k]) == "" || indent(lines[k]) >= ind {
+				continue
+			}
+			ind = indent(lines[k])
+			if strings.HasPrefix(strings.TrimSpace(lines[k]), "grouping ") {
+				return true
+			}
+		}
+	}
+	return false
 }
 
 func insideIO(x *schema.X) bool {
@@ -589,6 +628,50 @@ func (c *cmp) findChecks(rng *rand.Rand, res *schema.Resolver, pairs int) {
 							under = t.Kind
 						}
 						c.out = append(c.out, Disc{Class: "find-nonexistent", Detail: fmt.Sprintf("Find(%s) from %s returned %s", bogus, a.Path(), got.Path()), Facts: map[string]any{"bogus_step_under": under}})
+					}
+					// the path without the choices and cases on the way (what the path of the node
+					// in a data tree would be) is no schema path: the node reached so far has no
+					// child of that name
+					var kept []string
+					omitted := false
+					for _, n := range chain0(b) {
+						if n.Kind == "choice" || n.Kind == "case" {
+							omitted = true
+							continue
+						}
+						kept = append(kept, n.Name)
+					}
+					// (unless that path happens to name a node: a grouping used at two levels
+					// gives equal names in different places)
+					ref := rootOf(b)
+					for _, n := range kept {
+						if ref == nil {
+							break
+						}
+						switch {
+						case (ref.Kind == "rpc" || ref.Kind == "action") && n == "input":
+							if ref = ref.In; ref == nil {
+								ref = &schema.X{Kind: "input"} // (an absent one is created by the lookup)
+							}
+						case (ref.Kind == "rpc" || ref.Kind == "action") && n == "output":
+							if ref = ref.Out; ref == nil {
+								ref = &schema.X{Kind: "output"}
+							}
+						case ref.Kind == "rpc" || ref.Kind == "action":
+							ref = nil
+						default:
+							ref = ref.Children[n]
+						}
+					}
+					if omitted && len(kept) > 0 && ref == nil && b.Kind != "choice" && b.Kind != "case" {
+						dp := ""
+						for _, n := range kept {
+							dp += "/" + pfx + ":" + n
+						}
+						c.Lookups++
+						if got := ea.Find(dp); got != nil {
+							c.out = append(c.out, Disc{Class: "find-nonexistent", Detail: fmt.Sprintf("Find(%s) from %s returned %s: the path leaves out the choices and cases above the node", dp, a.Path(), got.Path()), Facts: map[string]any{"bogus_step_under": "omitted-choice-and-case"}})
+						}
 					}
 					// an inner step under the prefix of another module: a step is a qualified
 					// name, and there is no child of that name in that module's namespace
@@ -1054,7 +1137,7 @@ func Run(j *job.Job, s *job.Sink) {
 	for i := j.Start; i < j.Start+j.Count; i++ {
 		rng := prng.For(j.Seed, "tree", j.Family, i) // the same sets for every property
 		// one set in eight is allowed unknown or cyclic type references (the error side of C09)
-		g := &schema.Gen{R: rng, Typedefs: true, TypeErrors: rng.Intn(8) == 0, Posix: rng.Intn(2) == 0, IfFeatures: rng.Intn(2) == 0}
+		g := &schema.Gen{R: rng, Typedefs: true, TypeErrors: rng.Intn(8) == 0, Posix: rng.Intn(2) == 0, IfFeatures: rng.Intn(2) == 0, IONames: true}
 		g.Build()
 		res := &schema.Resolver{Mods: g.Mods}
 		res.Resolve()
@@ -1187,6 +1270,8 @@ func Run(j *job.Job, s *job.Sink) {
 				return
 			case len(errs) > 0:
 				c.bad(nil, "spurious-error", "%v", errs[0])
+				// a name that does not resolve inside a grouping is C06's subject as well
+				c.out[len(c.out)-1].Facts["in_grouping"] = insideGrouping(cs.Files, errs[0].Error())
 				return
 			}
 			s.Count("clean_sets_compared", 1)
